@@ -307,7 +307,7 @@ func c04kinds(c *core.Ctx, r *core.Report) {
 		}
 		kinds := map[string]bool{}
 		nIdent := 0
-		for _, ii := range core.InlinedInstrsFrom(c, fn, region, 3, func(ins ssa.Instruction) bool {
+		for _, ii := range core.InlinedInstrsFrom(c, fn, region, c.Depth(3), func(ins ssa.Instruction) bool {
 			st, ok := ins.(*ssa.Store)
 			if !ok {
 				return false
